@@ -215,6 +215,38 @@ func init() {
 			g.emit(mkA("reduce", c, x, x, 0, "", fresh), "reduce-p0")
 		}
 	}
+	// tableedge: operations whose internal power of ten sits at the end of the 128-entry table (exponent gaps and
+	// discarded / padded digit counts 126..130), each twice and interleaved with unrelated ones: a call that writes
+	// to the shared table shows in the second result and in the shared-state digest of the run.
+	drivers["tableedge"] = func(g *G) {
+		wide := func(p int, r string) Ctx { return Ctx{P: p, Emin: -100000, Emax: 100000, R: r} }
+		for rep := 0; rep < 2; rep++ {
+			for gap := 126; gap <= 130; gap++ {
+				for i := 0; i < g.pick(6, 40); i++ {
+					m := modeNames[g.R.Intn(8)]
+					p := g.R.between(1, 12)
+					// equal adjusted exponents, exponents gap apart: the aligned comparison multiplies by 10^gap
+					hd := g.R.digits(g.R.between(1, 5))
+					long := new(bigIntT).Mul(hd, new(bigIntT).Exp(bigInt(10), bigInt(int64(gap)), nil))
+					long.Add(long, bigInt(int64(g.R.between(0, 2))))
+					x := finDec(g.R.bool(), long, 0)
+					y := finDec(x.N, new(bigIntT).Add(hd, bigInt(int64(g.R.between(-1, 1)))), gap)
+					for _, op := range []string{"cmp", "add", "sub", "quoint", "rem"} {
+						g.emit(mkA(op, wide(p+gap+8, m), x, y, 0, "", fresh), "gap/"+op)
+						g.emit(mkA(op, wide(p+gap+8, m), y, x, 0, "", fresh), "gap/"+op)
+					}
+					// rounding that discards exactly gap digits (its half-way comparison aligns by gap-1 .. gap+1)
+					z := finDec(g.R.bool(), g.R.digits(p+gap), g.R.between(-3, 3))
+					g.emit(mkA("round", wide(p, m), z, z, 0, "", fresh), "drop/round")
+					g.emit(mkA("quantize", wide(p+3, m), z, z, z.E+gap, "", fresh), "drop/quantize")
+					g.emit(mkA("quo", wide(p, m), z, finDec(false, bigInt(3), 0), 0, "", fresh), "drop/quo")
+					// padding by gap digits
+					s := finDec(g.R.bool(), g.R.digits(g.R.between(1, 4)), 0)
+					g.emit(mkA("quantize", wide(gap+8, m), s, s, -gap, "", fresh), "pad/quantize")
+				}
+			}
+		}
+	}
 	drivers["intL"] = func(g *G) {
 		arithLInt(g, []string{"quoint", "rem", "quantize", "tointx", "tointv", "ceil", "floor", "reduce"})
 	}
@@ -420,6 +452,12 @@ func arithLInt(g *G, ops []string) {
 		}
 		if i%12 != 0 {
 			y.E = x.E - gap
+		}
+		if i%20 == 1 { // a dividend longer than the gap, the divisor's exponent more than 128 above the dividend's
+			nd := g.R.between(131, 220)
+			x = finDec(g.R.bool(), g.R.digits(nd), g.R.between(-5, 5))
+			y = finDec(g.R.bool(), g.R.digits(g.R.between(1, 6)), x.E+g.R.between(127, nd-1))
+			c.Emax, c.Emin = 100000, -100000
 		}
 		if g.R.Intn(6) == 0 { // trailing zeros (Reduce, exact quotients)
 			k := g.R.between(1, 12)
